@@ -43,3 +43,13 @@ def extra(ctx, cov):
         f.write(lines[min(k, len(lines) - 1)] + "\n")
     m = re.search(r"WARNING: ThreadSanitizer: ([^\n]*)", err)
     return [("tsan: %s at %s" % (m.group(1) if m else "thread result differs", lines[min(k, len(lines) - 1)]), path)]
+
+def explain_broken(ctx, proof_broken):
+    """when no_undocumented_shared_state fails, list the static objects that are stored to but not documented"""
+    import json
+    try:
+        objs, written, taken = gen_globals.scan(ctx.build)
+    except Exception as e: return "scan failed: %s" % e
+    doc = {"__gmp_allocate_func", "__gmp_reallocate_func", "__gmp_free_func", "__gmp_default_fp_limb_precision", "__gmp_rands", "__gmp_rands_initialized", "__gmp_errno", "__gmp_junk"}
+    bad = ["%s (%s, %d stores)" % (k[1], k[0], written[k]) for k in written if k[1] not in doc]
+    return "static objects stored to by library code and not in the documented list: " + ", ".join(sorted(bad)) if bad else ""
